@@ -223,7 +223,7 @@ func Random(rng *rand.Rand, profile string, n int) []Input {
 				}
 				ins = append(ins, gi)
 			default:
-				fr := &FlushReq{NI: []string{"*", ribdrv.DefaultNI, "vrf1", "", "nosuchni"}[rng.Intn(5)],
+				fr := &FlushReq{NI: []string{"*", ribdrv.DefaultNI, "vrf1", "", "nosuchni", "<empty>"}[rng.Intn(6)],
 					El: []string{"override", "none", "id", "id"}[rng.Intn(4)]}
 				if fr.El == "id" {
 					fr.ID = randID()
